@@ -511,6 +511,7 @@ type Part struct {
 	ReplayCustom                        json.RawMessage // non-nil when replaying
 	replayFails                         int
 	filed                               map[string]int
+	unknown                             int
 }
 
 // Fail reports a failure of a custom part; custom is what a replay needs.
@@ -527,8 +528,17 @@ func (p *Part) Fail(class, detail string, custom interface{}) {
 		p.filed = map[string]int{}
 	}
 	p.filed[class]++
-	p.r.classify(p.name, mc.Failure{Class: class, Detail: detail}, custom, p.filed[class] <= 5)
+	f := mc.Failure{Class: class, Detail: detail}
+	if !p.r.isKnown(f) {
+		p.unknown++
+	}
+	p.r.classify(p.name, f, custom, p.filed[class] <= 5)
 }
+
+// Settled reports that the part has seen enough failures outside the known-finding classes for the verdict
+// to be settled (the same rule E1 parts apply through StopAfter); a search loop may stop and must then mark
+// the part as not exhaustive.
+func (p *Part) Settled() bool { return p.unknown >= 500 }
 
 // HarnessError records a fault of the machinery itself (exit 2).
 func (r *Run) HarnessError(format string, a ...interface{}) {
